@@ -118,10 +118,12 @@ static void mode_ms(void){
       if(fam==3) opus_projection_ambisonics_encoder_init((OpusProjectionEncoder*)F,Fs,ch,3,&s2,&c2,app); else opus_multistream_surround_encoder_init((OpusMSEncoder*)F,Fs,ch,fam,&s2,&c2,m2,app);
       for(int i=0;i<nset;i++){ if(fam==3){ opus_projection_encoder_ctl((OpusProjectionEncoder*)F,OPUS_SET_BITRATE(sets[i].br)); opus_projection_encoder_ctl((OpusProjectionEncoder*)F,OPUS_SET_VBR(sets[i].vbr)); opus_projection_encoder_ctl((OpusProjectionEncoder*)F,OPUS_SET_COMPLEXITY(sets[i].cx)); } else { opus_multistream_encoder_ctl((OpusMSEncoder*)F,OPUS_SET_BITRATE(sets[i].br)); opus_multistream_encoder_ctl((OpusMSEncoder*)F,OPUS_SET_VBR(sets[i].vbr)); opus_multistream_encoder_ctl((OpusMSEncoder*)F,OPUS_SET_COMPLEXITY(sets[i].cx)); } }
       if(fam==3) opus_projection_encoder_ctl((OpusProjectionEncoder*)X,OPUS_RESET_STATE); else opus_multistream_encoder_ctl((OpusMSEncoder*)X,OPUS_RESET_STATE);
+      if(getenv("C12_DEBUG")){ const unsigned char *a=(const unsigned char*)X,*b=(const unsigned char*)F; int st=-1; fprintf(stderr,"reset at frame %d, object size %d; differing byte ranges (reset object vs new object):",k,esz); for(int q=0;q<=esz;q++){ int df=q<esz&&a[q]!=b[q]; if(df&&st<0) st=q; if(!df&&st>=0){ fprintf(stderr," [%d,%d)",st,q); st=-1; } } fprintf(stderr,"\n"); if(getenv("C12_PATCH")){ int lo=0,hi=-1,idx=0; sscanf(getenv("C12_PATCH"),"%d-%d",&lo,&hi); unsigned char *fb=(unsigned char*)F; st=-1; for(int q=0;q<=esz;q++){ int df=q<esz&&a[q]!=fb[q]; if(df&&st<0) st=q; if(!df&&st>=0){ if(idx>=lo&&idx<=hi) memcpy(fb+st,a+st,q-st); idx++; st=-1; } } } }
       free(EB); EB=F; stage=2; if(DA){ opus_multistream_decoder_ctl(DA,OPUS_RESET_STATE); int dsz=opus_multistream_decoder_get_size(streams,coupled); free(DB); DB=(OpusMSDecoder*)poisoned(dsz,-1,&r); opus_multistream_decoder_init(DB,Fs,ch,streams,coupled,map); } }
     if(vc_chance(&r,1,5)) fidx=vc_range(&r,0,6); int fs=vk_frame_samples(Fs,fidx); vs_fill(&g,in,fs);
     int la= fam==3?opus_projection_encode_float((OpusProjectionEncoder*)X,in,fs,pa,8000):opus_multistream_encode_float((OpusMSEncoder*)X,in,fs,pa,8000); paint_stack(0x40+k);
     int lb= fam==3?opus_projection_encode_float((OpusProjectionEncoder*)EB,in,fs,pb,8000):opus_multistream_encode_float((OpusMSEncoder*)EB,in,fs,pb,8000); vc_count("ms_enc_pairs",1);
+    if(getenv("C12_DEBUG")&&esz>135724) fprintf(stderr,"frame %d stage %d fs %d: enc3 celt force_intra %d / %d disable_pf %d / %d, len %d/%d first differing byte %d\n",k,stage,fs,((int*)((char*)X+135720))[0],((int*)((char*)EB+135720))[0],((int*)((char*)X+135728))[0],((int*)((char*)EB+135728))[0],la,lb,({int q=0; while(q<la&&q<lb&&pa[q]==pb[q]) q++; q;}));
     if(la!=lb||la<=0||memcmp(pa,pb,la)){ vc_viol(stage==2?"ms:enc-reset-differs":stage==1?"ms:enc-clone-diverges":"ms:enc-memory-dependent","family %d ch %d frame %d (%s): len %d vs %d (Fs=%d fs=%d)",fam,ch,k,stage==2?"reset vs new":stage==1?"clone vs twin":"zero vs poisoned memory",la,lb,Fs,fs); break; }
     if(DA){ int lost=vc_chance(&r,1,8); int ra=opus_multistream_decode_float(DA,lost?NULL:pa,lost?0:la,oa,fs,0); paint_stack(0x90+k); int rb=opus_multistream_decode_float(DB,lost?NULL:pa,lost?0:la,ob,fs,0); vc_count("ms_dec_pairs",1);
       if(ra!=rb||ra!=fs||memcmp(oa,ob,sizeof(float)*fs*ch)){ vc_viol(stage==2?"ms:dec-reset-differs":"ms:dec-memory-dependent","family %d ch %d frame %d: multistream decoder twins differ (ret %d/%d)",fam,ch,k,ra,rb); break; } }
